@@ -32,3 +32,26 @@ Theorem C02_partition_bins lookup ps total ops :
   let st := fold_left pstep ops (part_init lookup ps total, []) in PInv (fst st) (snd st).
 Proof. exact (reach_inv lookup ps total ops). Qed.
 Print Assumptions C02_partition_bins.
+
+(* ---- blocking, deadline and queue wrappers, pools (settled model): the delegate's busy count equals the number of callers holding
+   a token after every operation - arrivals (granted, queued, refused at once), releases with hand-off or broadcast, cancellations,
+   timers firing; a caller that returned refused is not a holder, so it holds nothing ---- *)
+From GCL Require Import Model.Waiters Proofs.WaitersProofs.
+Theorem C02_wrapper_arrive s c : conserved s -> conserved (arrive s c).
+Proof. exact (arrive_conserved s c). Qed.
+Print Assumptions C02_wrapper_arrive.
+Theorem C02_wrapper_release s i pref : conserved s -> conserved (release s i pref).
+Proof. exact (release_conserved s i pref). Qed.
+Print Assumptions C02_wrapper_release.
+Theorem C02_wrapper_cancel s i : conserved s -> conserved (cancel s i).
+Proof. exact (cancel_conserved s i). Qed.
+Print Assumptions C02_wrapper_cancel.
+Theorem C02_wrapper_advance fuel s target pref : conserved s -> conserved (advance fuel s target pref).
+Proof. exact (advance_conserved fuel s target pref). Qed.
+Print Assumptions C02_wrapper_advance.
+
+(* step granularity, queue limiter (any interleaving of the atomic steps, including the race windows of F9): tokens are conserved *)
+From GCL Require Model.QueueLTS Proofs.QueueLTSProofs.
+Theorem C02_queue_steps s0 s : QueueLTSProofs.Conserved s0 -> QueueLTSProofs.reachable s0 s -> QueueLTSProofs.Conserved s.
+Proof. exact (QueueLTSProofs.C02_queue_conservation s0 s). Qed.
+Print Assumptions C02_queue_steps.
